@@ -145,39 +145,41 @@ def check_geometry(R, backend, data, opts, scale, today=None):
         start = segs[0][1]
         if not (close(start[0], dot["pos"][0], ptol) and close(start[1], dot["pos"][1], ptol)):
             return "C07:link-start", "link %d starts at %r, its dot is at %r" % (j, start, dot["pos"])
-        kinds = "".join(s[0] for s in segs[1:])
-        k = kinds.count("L")
-        if kinds != "CL" * k + "C":
-            return "C07:link-shape", "link %d has segment pattern M%s" % (j, kinds)
+        # The path is continuous by construction of the parsers (absolute commands / checked joins).  It must pass
+        # through the datum's stubs layer by layer: in order, for every layer i below the label's layer k, a vertex on
+        # the near edge of layer i (across = i*gap + layerGap) followed by a vertex on its far edge (across = (i+1)*gap)
+        # at the same along-axis position (the stub), and finally a vertex on the near edge of layer k.  How the
+        # renderer joins those vertices (curves, lines) is not constrained.
+        verts = [start] + [s[1][-2:] for s in segs[1:]]
+        facing = abs(draw.across(direction, draw.facing_mid(direction, box)))
+        k = int(round((facing - gapL) / gap)) if gap else 0
+        if k < 0 or abs(k * gap + gapL - facing) > 1 + 1e-9:
+            return "C07:box-layer", "box %d faces the axis at distance %r, which is no layer offset (gap %r, layer gap %r)" % (j, facing, gap, gapL)
+        vi = 1
         cur = start
-        ci = 0
-        for s in segs[1:]:
-            end = s[1][-2:]
-            if s[0] == "C":
-                want_across = sgn * (ci * gap + gapL)
-                if not close(draw.across(direction, end), want_across, 1e-6):
-                    return ("C07:link-layer", "link %d: curve #%d ends at across-axis %r, layer %d starts at %r"
-                            % (j, ci, draw.across(direction, end), ci, want_across))
-                # control points: leave along the across axis, arrive along it
-                c1, c2 = s[1][0:2], s[1][2:4]
-                if not (close(draw.along(direction, c1), draw.along(direction, cur), 1e-6)
-                        and close(draw.along(direction, c2), draw.along(direction, end), 1e-6)):
-                    return "C07:link-shape", "link %d: curve #%d control points %r %r" % (j, ci, c1, c2)
-                ci += 1
-            else:
-                want_across = sgn * (ci * gap)
-                if not (close(draw.across(direction, end), want_across, 1e-6)
-                        and close(draw.along(direction, end), draw.along(direction, cur), 1e-6)):
-                    return ("C07:link-stub", "link %d: stub segment to %r does not span layer %d (to across-axis %r)"
-                            % (j, end, ci - 1, want_across))
-            cur = end
+        for i in range(k + 1):
+            near = sgn * (i * gap + gapL)
+            while vi < len(verts) and not close(draw.across(direction, verts[vi]), near, 1e-6):
+                vi += 1
+            if vi >= len(verts):
+                return ("C07:link-layer", "link %d never reaches the near edge of layer %d (across-axis %r): vertices %r"
+                        % (j, i, near, verts))
+            cur = verts[vi]
+            if i < k:
+                far = sgn * ((i + 1) * gap)
+                vj = vi + 1
+                if vj >= len(verts) or not (close(draw.across(direction, verts[vj]), far, 1e-6)
+                                            and close(draw.along(direction, verts[vj]), draw.along(direction, cur), 1e-6)):
+                    return ("C07:link-stub", "link %d does not cross layer %d as a stub (from %r straight to across-axis %r): vertices %r"
+                            % (j, i, cur, far, verts))
+                vi = vj
+                cur = verts[vi]
+        if vi != len(verts) - 1:
+            return "C07:link-end", "link %d continues beyond the near edge of its label's layer: vertices %r" % (j, verts)
         mid = draw.facing_mid(direction, box)
         if abs(cur[0] - mid[0]) > 1 + 1e-9 or abs(cur[1] - mid[1]) > 1 + 1e-9:
             return ("C07:link-end", "link %d ends at %r, the middle of the axis-facing edge of its box %r is %r"
                     % (j, cur, (box["origin"], box["w"], box["h"]), mid))
-        # the box sits in the layer its link reaches
-        if abs(draw.across(direction, mid) - sgn * (k * gap + gapL)) > 1 + 1e-9:
-            return "C07:box-layer", "box %d faces the axis at %r but its link reaches layer %d" % (j, mid, k)
         text = box["text"]
         if backend == "tex" and text is not None:
             try:
@@ -187,8 +189,11 @@ def check_geometry(R, backend, data, opts, scale, today=None):
         a_sz, c_sz = draw.box_sizes(direction, box)
         drawn.append((draw.along(direction, dot["pos"]), a_sz, c_sz, None if text is None else uni.nfd(text)))
     exp = []
+    line_h = draw.infer_line_height(direction, R["boxes"], data, opts)
+    if not (0 < line_h < 200):
+        return "C07:box-size", "implausible line height %r read off the first box" % (line_h,)
     for d, x in zip(data, nums):
-        a_sz, c_sz = draw.expected_box_size(d, opts)
+        a_sz, c_sz = draw.expected_box_size(d, opts, line_h)
         tx = d.get("text")
         exp.append((float(f(x)), float(a_sz), float(c_sz), None if not tx else uni.nfd(tx)))
     key = lambda r: (r[3] is not None, r[3] or "", r[1], r[2], r[0])
